@@ -1641,11 +1641,9 @@ def _plan_fullpath(tier, writer):
         per = -(-(L + 64) // k)
         for i in range(k):
             lo = i * per + ((-i * per) % step)
-            spec = {"ranges": [[lo, (i + 1) * per, step]]}
-            if i == 0:
-                spec["ranges"].append([0, 32, 1])
-                spec["tail"] = 16
-            shards.append((sc, spec, i == 0, False))
+            shards.append((sc, {"ranges": [[lo, (i + 1) * per, step]]}, False, False))
+        shards.append((sc, {"ranges": [[0, 32, 1]], "tail": 16}, False, False))
+        shards.append((sc, {}, True, False))
         caps.append("full import path: %s via %s at every %dst crash point + first 32/last 16 bytes (%d-byte cache)" % (sc[0], sc[1], step, L))
     return shards, caps
 
